@@ -20,7 +20,7 @@
 From Coq Require Import ZArith NArith List Bool Arith FMapPositive.
 From Mpc Require Import Gen.Consts Gen.Thresholds Base.Sx
   Builders.Emit Builders.Adder Builders.Sub Builders.Mux Builders.Cmp Builders.Bitwise
-  Builders.Index Builders.Hamming Builders.Mult Builders.Gmwdiv Builders.Div Builders.EvalFast.
+  Builders.Index Builders.Hamming Builders.Mult Builders.Gmwdiv Builders.Div Builders.Div2 Builders.EvalFast.
 Import ListNotations.
 Open Scope monad_scope.
 
@@ -143,6 +143,8 @@ Definition run_builder (b : nat) (ops dst : list (list wire)) (prm : list nat) :
   | 29 => list1 (ks_adder x y z) r
   | 30 => list1 (ks_subtractor x y z) r
   | 31 => unit2 (udivider_long x y z r) z r
+  | 32 => unit2 (udivider_restoring x y z r) z r
+  | 33 => udivider_array x y z r
   | _ => ret (z, r)
   end.
 
